@@ -53,7 +53,7 @@ class Builder:
             c = self.spec["cells"][k]
             if c["kind"] == "ext":
                 self._cells[k] = h.ExternalModule(
-                    name=c["name"], domain="verif",
+                    name=c["name"], domain=c.get("domain", "verif"),
                     port_list=[self.port_sig(p[0], p[1], p[2]) for p in c["ports"]],
                     paramtype=self.tagparams())
             else:
